@@ -112,6 +112,12 @@ class Scenario:
         fails = [params["failing"]] + ([params["second"]] if params.get("second") else [])
         label = "+".join("%s:%s:%s" % (f[0], f[1][0], f[1][1]) for f in fails)
         violations = []
+        refused = [d["id"] for _s, _n, _w, e, d in ex.log if e == "adopt-raised"
+                   and str(d.get("id", "")).lstrip("parent-") in ("f0", "f1")]
+        if refused:
+            # the failing payload was never accepted (adopt raised: C03's business, not a
+            # background failure) - nothing to decide here
+            return {"violations": [], "outcome": "adopt-refused"}
         if ex.deadlock:
             violations.append(("%s:deadlock" % label,
                                "deadlock: %r" % (ex.deadlock_info,)))
